@@ -480,10 +480,10 @@ async fn replay_file(w: &mut World, log: &mut Log, st: &mut Stats, path: &str, c
         if line.starts_with("thrcase ") {
             in_thr = true;
             started = true;
-            let seed: u64 = line.split_whitespace().nth(1).and_then(|s| s.parse().ok()).unwrap_or(1);
+            let tag = line.split_whitespace().nth(1).unwrap_or("1").to_string();
             // leave a clean table for the threaded case
             exec(w, log, st, "case", cluster).await;
-            thr::run_case(log, st, seed);
+            thr::run_tagged(log, st, &tag);
             continue;
         }
         if line.starts_with("case") {
@@ -531,6 +531,10 @@ pub fn main_with(cluster: bool) {
             let s = rng.next_u64() % 1_000_000_000;
             thr::run_case(&mut log, &mut st, s);
         }
+    }
+    if !only_replay && mode == "thrx" {
+        // exhaustive: every interleaving of the fixed small scenarios (cases = cap per scenario)
+        thr::exhaustive(&mut log, &mut st, cases);
     }
     st.add("lines", log.lines);
     st.write_json(&std::path::Path::new(&out).join("stats.json"));
@@ -623,10 +627,40 @@ mod thr {
         )
     }
 
-    pub fn run_case(log: &mut Log, st: &mut Stats, seed: u64) {
+    /// How the controller picks the next thread.
+    pub enum Sched {
+        Random { rng: Rng, sticky: u64 },
+        /// scripted prefix (index into the parked list at each branching step), then always 0;
+        /// `opts` records the number of options met at every branching step
+        Script { prefix: Vec<usize>, taken: Vec<usize>, opts: Vec<usize> },
+    }
+
+    pub struct Spec {
+        pub tag: String,
+        pub n_actors: u64,
+        pub setup: Vec<String>,
+        pub prog: Vec<String>,
+        pub kill: bool,
+    }
+
+    /// the fixed small scenarios of the exhaustive sweep
+    pub fn scenario(i: u64) -> Option<Spec> {
+        let base = vec!["join 1 0 0,1".to_string(), "monitor 0 0".to_string(), "monitorscope 1 2".to_string()];
+        let (prog, kill): (Vec<&str>, bool) = match i {
+            0 => (vec!["monitor 1 0"], false),
+            1 => (vec!["monitorscope 0 0"], true),
+            2 => (vec!["leave 1 0 0,1"], false),
+            3 => (vec!["join 1 1 0,1"], false),
+            4 => (vec!["join 1 0 0"], true),
+            5 => (vec!["demonitor 0 0", "monitor 0 0"], false),
+            _ => return None,
+        };
+        Some(Spec { tag: format!("x:{i}"), n_actors: 3, setup: base, prog: prog.iter().map(|s| s.to_string()).collect(), kill })
+    }
+
+    fn random_spec(seed: u64) -> (Spec, Sched) {
         let mut rng = Rng::new(seed);
         let n_actors = rng.range(3, 4);
-        let exiter = 0u64;
         // setup: the exiter is a member of 0-2 groups and monitors 0-2 things; a bystander
         // monitors groups / the scope / everything and logs what it is told
         let mut setup: Vec<String> = Vec::new();
@@ -663,6 +697,67 @@ mod thr {
         }
         let kill = rng.chance(1, 3);
         let sticky = rng.below(4);
+        (Spec { tag: seed.to_string(), n_actors, setup, prog, kill }, Sched::Random { rng, sticky })
+    }
+
+    /// `thrcase <seed>` (random) or `thrcase x:<scenario>:<choices>` (scripted schedule)
+    pub fn run_tagged(log: &mut Log, st: &mut Stats, tag: &str) {
+        if let Some(rest) = tag.strip_prefix("x:") {
+            let mut it = rest.split(':');
+            let scn: u64 = it.next().and_then(|x| x.parse().ok()).unwrap_or(0);
+            let prefix: Vec<usize> = it.next().unwrap_or("").chars().filter_map(|c| c.to_digit(10).map(|d| d as usize)).collect();
+            if let Some(spec) = scenario(scn) {
+                let mut sched = Sched::Script { prefix, taken: vec![], opts: vec![] };
+                run_spec(log, st, spec, &mut sched);
+            }
+        } else {
+            run_case(log, st, tag.parse().unwrap_or(1));
+        }
+    }
+
+    pub fn run_case(log: &mut Log, st: &mut Stats, seed: u64) {
+        let (spec, mut sched) = random_spec(seed);
+        run_spec(log, st, spec, &mut sched);
+    }
+
+    /// every schedule of every fixed scenario (stateless DFS over the branching steps)
+    pub fn exhaustive(log: &mut Log, st: &mut Stats, max_runs: u64) {
+        let mut scn = 0;
+        while let Some(_) = scenario(scn) {
+            let mut stack: Vec<Vec<usize>> = vec![vec![]];
+            let mut runs = 0u64;
+            while let Some(prefix) = stack.pop() {
+                if runs >= max_runs {
+                    st.bump("thrx_truncated");
+                    break;
+                }
+                let plen = prefix.len();
+                // schedule = prefix, then always the first parked thread: the tag reproduces it
+                let mut spec = scenario(scn).unwrap();
+                spec.tag = format!("x:{scn}:{}", prefix.iter().map(|c| c.to_string()).collect::<String>());
+                let mut sched = Sched::Script { prefix, taken: vec![], opts: vec![] };
+                run_spec(log, st, spec, &mut sched);
+                runs += 1;
+                if let Sched::Script { taken, opts, .. } = sched {
+                    for i in (plen..taken.len()).rev() {
+                        for alt in 1..opts[i] {
+                            let mut p = taken[..i].to_vec();
+                            p.push(alt);
+                            stack.push(p);
+                        }
+                    }
+                }
+            }
+            st.add(&format!("thrx_schedules_scn{scn}"), runs);
+            scn += 1;
+        }
+    }
+
+    fn run_spec(log: &mut Log, st: &mut Stats, spec: Spec, sched: &mut Sched) {
+        let Spec { tag, n_actors, setup, prog, kill } = spec;
+        let exiter = 0u64;
+        // for a scripted schedule the tag carries the choices made so far; completed below
+        let seed = tag.clone();
 
         let evlog: EvLog = Arc::new(Mutex::new(Vec::new()));
         let ctl_a = ThreadCtl::new();
@@ -735,11 +830,23 @@ mod thr {
             if parked.is_empty() {
                 break;
             }
-            let pick = match last {
-                Some(l) if sticky > 0 && parked.iter().any(|(t, _)| *t == l) && rng.chance(sticky, 4) => {
-                    parked.iter().position(|(t, _)| *t == l).unwrap()
+            let pick = match sched {
+                Sched::Random { rng, sticky } => match last {
+                    Some(l) if *sticky > 0 && parked.iter().any(|(t, _)| *t == l) && rng.chance(*sticky, 4) => {
+                        parked.iter().position(|(t, _)| *t == l).unwrap()
+                    }
+                    _ => rng.below(parked.len() as u64) as usize,
+                },
+                Sched::Script { prefix, taken, opts } => {
+                    if parked.len() > 1 {
+                        let c = prefix.get(taken.len()).copied().unwrap_or(0).min(parked.len() - 1);
+                        taken.push(c);
+                        opts.push(parked.len());
+                        c
+                    } else {
+                        0
+                    }
                 }
-                _ => rng.below(parked.len() as u64) as usize,
             };
             let (tid, point) = parked[pick];
             last = Some(tid);
